@@ -118,6 +118,8 @@ def parseOp (ws : List String) (steps : String) (oracle : Bool) : Option Op :=
   -- an object holding its 3 slots behind a `dyn_collect!` trait object: an ordinary node
   | ["alloc", "dynnode", a, b, c] => (parseSlots [a, b, c]).map (.alloc true)
   | ["alloc", "lockcell", a] => (parseSlots [a]).map (.alloc true)
+  -- an object whose whole value is a pointer-free lock (`NEEDS_TRACE = false`): a leaf
+  | ["alloc", "leafcell"] => some (.alloc false [])
   | ["alloc", "oncecell"] => some (.alloc true [none])
   -- the allocation made by the closure of `Gc<OnceLock<_>>::get_or_init` (between its barrier and
   -- its store)
@@ -138,6 +140,9 @@ def parseOp (ws : List String) (steps : String) (oracle : Bool) : Option Op :=
     | _, _ => none
   -- first phase of `Gc<OnceLock<_>>::get_or_init` on an empty cell: `backward_barrier(cell, None)`,
   -- issued before the client closure runs
+  -- `Gc<RefLock<T>>::borrow_mut` on such a cell, then a write of plain data: for the collector,
+  -- `backward_barrier(cell, None)`
+  | ["barrier", "cellset", p] => p.toNat?.map (fun p => .barrier (.bb p none))
   | ["barrier", "getorinit", p] => p.toNat?.map (fun p => .barrier (.bb p none))
   | ["barrier", "bbw", p, c] =>
     match p.toNat?, c.toNat? with
